@@ -1,6 +1,7 @@
 (* Non-vacuity for C01: a concrete composed model meeting the theorems' hypotheses. *)
 From Coq Require Import List String Permutation ZArith.
-From PAFC01 Require Import ModelTree Sorting Proofs Proofs2 Proofs3.
+From Coq Require Import Floats.PrimFloat Lia.
+From PAFC01 Require Import ModelTree Sorting Proofs Proofs2 Proofs3 Proofs4 Model Proofs5.
 Import ListNotations.
 Local Open Scope string_scope.
 Local Open Scope list_scope.
@@ -41,3 +42,87 @@ Proof.
   simpl. repeat split; try discriminate;
     repeat (constructor; [simpl; intuition discriminate|]); constructor.
 Qed.
+
+(* ---------- second round: headline theorem, weaker wf, any-path route, frame, unit route ---------- *)
+Example ex_wf2 : wf2 Z ex.
+Proof. apply wf_wf2. exact ex_wf. Qed.
+
+(* C01_ith_value: the 1-st advertised path ["h";"a"] is structural, and the theorem's conclusion holds there *)
+Example ex_ith_value_hyp : node_at Z (nth 1 (unique_prior_paths Z ex) []) ex <> None.
+Proof. vm_compute. discriminate. Qed.
+
+Example ex_ith_value :
+  lookup Z (nth 1 (unique_prior_paths Z ex) []) (inst_from_vector Z zbin ex [10%Z; 20%Z]) = Some (IV (nth 1 [10%Z; 20%Z] 0%Z)).
+Proof. exact (ith_value Z zbin ex [10%Z; 20%Z] 1 [] 0%Z ex_wf2 eq_refl (le_n 2) ex_ith_value_hyp). Qed.
+
+(* the 0-th advertised path of ex lies inside an arithmetic node: not structural (C01_paths_classified, right branch) *)
+Example ex_path0_not_structural : node_at Z (nth 0 (unique_prior_paths Z ex) []) ex = None.
+Proof. vm_compute. reflexivity. Qed.
+
+(* C01_ith_value_tuple: a model whose 0-th advertised path ends in a tuple member *)
+Definition ext : node Z :=
+  NColl [("g", NModel "T2" ["c"; "pos"]
+                 [("c", NPrior 1); ("pos", NTuple [("pos_1", (1, NConst 7%Z)); ("pos_0", (0, NPrior 0))])])].
+
+Example ext_tuple_hyp :
+  wf2 Z ext /\ nth 0 (unique_prior_paths Z ext) [] = ["g"; "pos"] ++ ["pos_0"] /\
+  node_at Z ["g"; "pos"] ext = Some (NTuple [("pos_1", (1, NConst 7%Z)); ("pos_0", (0, NPrior 0))]).
+Proof.
+  split; [|vm_compute; split; reflexivity].
+  apply (wfb2_sound Z Z.eqb (fun a b H => proj1 (Z.eqb_eq a b) H)). vm_compute. reflexivity.
+Qed.
+
+(* weaker hypothesis: p * p (both operands one object, one attribute name) satisfies wfb2 but not wfb *)
+Definition exsq : node Z :=
+  NColl [("g", NModel "G2" ["a"; "b"] [("a", NBin OMul "p" "p" (NPrior 0) (NPrior 0)); ("b", NPrior 1)])].
+
+Example exsq_wf : wfb Z exsq = false /\ wfb2 Z Z.eqb exsq = true.
+Proof. vm_compute. split; reflexivity. Qed.
+
+Example exsq_routes :
+  inst_from_paths Z zbin exsq (combine (unique_prior_paths Z exsq) [3%Z; 5%Z]) = inst_from_vector Z zbin exsq [3%Z; 5%Z]
+  /\ inst_from_vector Z zbin exsq [3%Z; 5%Z] = IColl [("g", IObj "G2" [("a", IV 9%Z); ("b", IV 5%Z)])].
+Proof. vm_compute. split; reflexivity. Qed.
+
+(* any-path route: parameter 1 addressed through its OTHER path g.c, parameter 0 given twice (last wins) *)
+Example ex_any_paths_hyp :
+  forall i, i < prior_count Z ex ->
+    path_args Z ex [(["h"; "b"; "x"], 99%Z); (["g"; "c"], 20%Z); (["g"; "pos"; "pos_0"], 10%Z)] (nth i (ordered_ids Z ex) 0)
+    = nth_error [10%Z; 20%Z] i.
+Proof. intros [|[|i]] H; [reflexivity|reflexivity|vm_compute in H; lia]. Qed.
+
+(* frame: the sub-model h.a does not contain parameter 0 *)
+Example ex_frame_hyp :
+  node_at Z ["h"; "a"] ex = Some (NPrior 1) /\ ~ In (nth 0 (ordered_ids Z ex) 0) (prior_ids Z (NPrior 1)).
+Proof. split; [reflexivity|]. vm_compute. intros [H|[]]. discriminate H. Qed.
+
+(* unit route: value_for q u = 100 * q + u *)
+Example ex_unit :
+  inst_from_unit Z zbin (fun q u => (100 * Z.of_nat q + u)%Z) ex [1%Z; 2%Z] =
+  IColl [("g", IObj "T2" [("c", IV 102%Z); ("pos", ITup [IV 1%Z; IV 7%Z])]);
+         ("h", IObj "G2" [("a", IV 102%Z); ("b", IV 2%Z)])].
+Proof. vm_compute. reflexivity. Qed.
+
+(* ---------- known finding C01 arith-member-in-tuple (current code, see Model.prune): the full statement
+   "tuple parameters are computed from those values" is REFUTED for a tuple with an arithmetic member:
+   m = Model(T2, c=p2); m.pos_0 = p0 + p1; m.pos_1 = p1 builds pos = (0.5,) instead of (0.75, 0.5) ---------- *)
+Definition ex_arith_member : fnode :=
+  NModel "T2" ["c"; "pos"]
+    [("c", NPrior 2);
+     ("pos", NTuple [("pos_0", (0, NBin OAdd "p0" "p1" (NPrior 0) (NPrior 1))); ("pos_1", (1, NPrior 1))])].
+
+Example tuple_arith_member_refuted :
+  exists (n : fnode) (vec : list float),
+    ival_eqb (inst float fbin (zip_args float (ordered_ids float n) vec) (prune n)) (inst_from_vector float fbin n vec) = false.
+Proof. exists ex_arith_member, [0.25%float; 0.5%float; 0.75%float]. vm_compute. reflexivity. Qed.
+
+Example tuple_arith_member_current :
+  lookup float ["pos"] (inst float fbin (zip_args float (ordered_ids float ex_arith_member) [0.25%float; 0.5%float; 0.75%float]) (prune ex_arith_member))
+  = Some (ITup [IV 0.5%float]).
+Proof. vm_compute. reflexivity. Qed.
+
+(* partial (C01_tuple_members_partial): non-vacuity of its guard, and the guard excludes the witness above *)
+Example simple_members_ex :
+  simple_members (NModel "T2" ["c"; "pos"] [("c", NPrior 1); ("pos", NTuple [("pos_0", (0, NPrior 0)); ("pos_1", (1, NConst 2%float))])]) = true
+  /\ simple_members ex_arith_member = false.
+Proof. vm_compute. split; reflexivity. Qed.
